@@ -391,8 +391,31 @@ def validate_cfg_logic(run, which, n=200):
             return [p[0], p[1]]
         except ConfigParserException as e:
             return "blankSpecies" if "label is missing" in str(e) else "notTwoParts"
+    def fs_key():
+        r = rng.random()
+        labs = labels + ["O2-", "U4+", "a-b"]
+        a, b = rng.choice(labs), rng.choice(labs)
+        pad = lambda x: rng.choice(["", " ", "  ", "\t"]) + x + rng.choice(["", " ", "\t "])
+        if r < 0.7:
+            return pad(a) + "->" + pad(b)
+        return rng.choice([a, a + "->", "->" + b, a + "->" + b + "->" + a, " -> ", "", a + " - > " + b, "->->", a + "-" + b, a + ">-" + b, a + "-->" + b, a + "->>" + b, "-", ">"])
+
+    def real_fs(k):
+        import io as _io
+        full = cpm.ConfigParser(_io.StringIO(""))
+        try:
+            t = full._parse_eam_fs_density_line(k, "as.constant 1.0")
+            return [t.species[0], t.species[1]]          # (from_species, to_species) in this order
+        except ConfigParserException as e:
+            return "blankSpecies" if "label is missing" in str(e) else "notTwoParts"
     cases, reqs = [], []
-    if which == "pair_species":
+    if which == "fs_species":
+        for _ in range(n):
+            k = fs_key()
+            reqs.append(dict(op="fs_species", k=k))
+            cases.append(k)
+        real = [real_fs(k) for k in cases]
+    elif which == "pair_species":
         for _ in range(n):
             k = key()
             reqs.append(dict(op="pair_species", k=k))
